@@ -352,6 +352,14 @@ def run_unit(name, tier="quick", use_cache=True, canary=True, repo=None):
             add("%s::%s::safety" % (name, f["name"]), f["name"], "safety", f["safety"], loc,
                 "implicit obligations of the body: index/slice bounds, arithmetic overflow, unwrap/expect, "
                 "unreachable!, callee preconditions, termination")
+            # a method of a trait impl also owes the clauses of the trait's declaration (Verus checks them against this body)
+            if f.get("impl_trait"):
+                for tf in b.fns:
+                    if not tf["has_body"] and tf["name"] == "%s::%s" % (f["impl_trait"], f.get("method")):
+                        for c in tf["clauses"]:
+                            if c["kind"] == "ensures":
+                                add("%s::%s::trait.%s" % (name, f["name"], c["id"]), f["name"], "trait." + c["id"], c["tags"], loc,
+                                    "(clause of %s) %s" % (tf["name"], rs.norm(c["text"])))
             for c in f["clauses"]:
                 if c["kind"] in ("ensures", "invariant", "assert"):
                     add("%s::%s::%s" % (name, f["name"], c["id"]), f["name"], c["id"], c["tags"], loc, rs.norm(c["text"]))
@@ -429,6 +437,21 @@ def run_unit(name, tier="quick", use_cache=True, canary=True, repo=None):
             res["undecided"].append("verus: %s at generated line %d (no enclosing fn)" % (msg, line))
             continue
         failed_fns.setdefault(fnn, []).append(info)
+        if fnn in extracted and kind == "post" and rec.get("clause") and not extracted[fnn]["has_body"]:
+            # a trait declaration's clause failed for an implementation: the exit span names the implementing body
+            ex = [s_ for s_ in sec if s_["label"] and ("exit" in s_["label"] or "end of the function" in s_["label"])]
+            if ex:
+                fr, rr = span_fn(ex[0]["ls"], linemap, fns)
+                cand = [k_ for k_ in extracted if extracted[k_]["has_body"] and extracted[k_].get("method") == fr.split("::")[-1] and (k_ == fr or k_.endswith("::" + fr.split("::")[-1]))]
+                cand = [k_ for k_ in cand if linemap[ex[0]["ls"] - 1].get("fn") == k_] or cand
+                if cand:
+                    oid = "%s::%s::trait.%s" % (name, cand[0], rec["clause"])
+                    if "file" in rr:
+                        info["repo"] = "%s:%s" % (rr["file"], rr["line"])
+                    if oid in obl:
+                        obl[oid]["status"] = "failed"
+                        obl[oid]["diags"].append(info)
+                        continue
         if fnn in extracted:
             if kind in ("post", "invariant", "assert") and rec.get("clause"):
                 oid = "%s::%s::%s" % (name, fnn, rec["clause"])
